@@ -22,8 +22,8 @@ const GOWN: f64 = 2.5; // gradient of a quote given as a dual number w.r.t. its 
 
 #[derive(Clone, Debug, Serialize, Deserialize, PartialEq, Eq, Hash)]
 pub enum Act {
-    /// (quote index, value index) items; all given as floats or all as Duals
-    Update { items: Vec<(usize, u8)>, dual: bool },
+    /// (quote index, value index) items; form of the new quotes: 0 floats, 1 Duals, 2 Dual2s (own variable)
+    Update { items: Vec<(usize, u8)>, form: u8 },
     /// 0 reversed pair, 1 unquoted pair of known currencies, 2 foreign currency, 3 inconsistent settlement, 4 valid + foreign
     BadUpdate(u8),
     SetOrder(u8),
@@ -208,8 +208,8 @@ fn check_sens(case: &Case, idx: u64, acc: &mut Acc) {
 #[derive(Clone, Debug)]
 pub struct St {
     pub fx: FXRates,
-    /// per quote: (value index, given as Dual?)
-    pub shadow: Vec<(u8, bool)>,
+    /// per quote: (value index, form 0/1/2)
+    pub shadow: Vec<(u8, u8)>,
     pub bad: Option<(String, String)>,
     pub key: String,
 }
@@ -237,10 +237,14 @@ fn qval(i: usize, vi: u8) -> f64 {
     QV[i] * [1.0, 1.0625, 0.875][vi as usize]
 }
 
-fn mk_rate(m: &Market, i: usize, vi: u8, dual: bool) -> FXRate {
+fn mk_rate(m: &Market, i: usize, vi: u8, form: u8) -> FXRate {
     let (a, b) = m.quotes[i];
     let v = qval(i, vi);
-    let num = if dual { Number::Dual(Dual::new(v, vec![format!("u{}", i)])) } else { Number::F64(v) };
+    let num = match form {
+        0 => Number::F64(v),
+        1 => Number::Dual(Dual::new(v, vec![format!("u{}", i)])),
+        _ => Number::Dual2(Dual2::try_new(v, vec![format!("u{}", i)], vec![1.0], vec![0.125]).unwrap()),
+    };
     FXRate::try_new(CCYS[a], CCYS[b], num, settle_date(m)).unwrap()
 }
 
@@ -267,7 +271,7 @@ fn number_key(x: &Number) -> String {
 }
 
 /// canonical key = the complete observable content (no abstraction)
-fn state_key(fx: &FXRates, shadow: &[(u8, bool)], bad: &Option<(String, String)>) -> String {
+fn state_key(fx: &FXRates, shadow: &[(u8, u8)], bad: &Option<(String, String)>) -> String {
     let mut s = String::new();
     for r in hooks::fxrates_fx_rates(fx) {
         let (l, rr, num, st) = hooks::fxrate_parts(&r);
@@ -287,9 +291,9 @@ fn state_key(fx: &FXRates, shadow: &[(u8, bool)], bad: &Option<(String, String)>
 }
 
 fn init_state(m: &Market) -> St {
-    let rates: Vec<FXRate> = (0..m.quotes.len()).map(|i| mk_rate(m, i, 0, false)).collect();
+    let rates: Vec<FXRate> = (0..m.quotes.len()).map(|i| mk_rate(m, i, 0, 0)).collect();
     let fx = FXRates::try_new(rates, m.base.map(ccy)).expect("valid market");
-    let shadow = vec![(0u8, false); m.quotes.len()];
+    let shadow = vec![(0u8, 0u8); m.quotes.len()];
     let key = state_key(&fx, &shadow, &None);
     St { fx, shadow, bad: None, key }
 }
@@ -371,8 +375,8 @@ pub fn apply(m: &Market, st: &St, act: &Act) -> St {
         }
     };
     let r = guarded(|| match act {
-        Act::Update { items, dual } => {
-            let list: Vec<FXRate> = items.iter().map(|(i, vi)| mk_rate(m, *i, *vi, *dual)).collect();
+        Act::Update { items, form } => {
+            let list: Vec<FXRate> = items.iter().map(|(i, vi)| mk_rate(m, *i, *vi, *form)).collect();
             let res = fx.update(list).is_ok();
             (res, true)
         }
@@ -400,7 +404,7 @@ pub fn apply(m: &Market, st: &St, act: &Act) -> St {
                 }
                 2 => vec![foreign.clone()],
                 3 => vec![FXRate::try_new(CCYS[a0], CCYS[b0], Number::F64(qval(0, 1)), other_sd).unwrap()],
-                _ => vec![mk_rate(m, 0, 1, false), foreign.clone()],
+                _ => vec![mk_rate(m, 0, 1, 0), foreign.clone()],
             };
             (fx.update(list).is_ok(), false)
         }
@@ -408,12 +412,12 @@ pub fn apply(m: &Market, st: &St, act: &Act) -> St {
     });
     match (act, r) {
         (_, Err(msg)) => flag(&mut bad, "history/panic", msg),
-        (Act::Update { items, dual }, Ok((ok, _))) => {
+        (Act::Update { items, form }, Ok((ok, _))) => {
             if !ok {
                 flag(&mut bad, "history/valid-update-refused", format!("{:?}", act));
             } else {
                 for (i, vi) in items {
-                    shadow[*i] = (*vi, *dual);
+                    shadow[*i] = (*vi, *form);
                 }
             }
         }
@@ -485,8 +489,10 @@ pub fn actions_of(m: &Market, nvals: u8) -> Vec<Act> {
                     (*i, v)
                 })
                 .collect();
-            for dual in [false, true] {
-                out.push(Act::Update { items: items.clone(), dual });
+            // markets of up to 3 currencies also get second-order quotes
+            let forms: &[u8] = if q <= 2 { &[0, 1, 2] } else { &[0, 1] };
+            for form in forms {
+                out.push(Act::Update { items: items.clone(), form: *form });
             }
         }
     }
@@ -668,7 +674,7 @@ pub fn run(ctx: &Ctx, replay_file: Option<String>) -> ! {
         "E2 (histories): explicit-state breadth-first search (stateright) over the REAL FXRates object. State = the \
          object itself, keyed by its complete content (stored quotes, currencies, array kind, value/gradient/Hessian of \
          every entry by name) - no abstraction. Actions (all enabled in every state): update with every non-empty \
-         subset of the quotes x every assignment from a 2-3 value table x {floats, Duals}; five kinds of refused update \
+         subset of the quotes x every assignment from a 2-3 value table x {floats, Duals, and for up to 3 currencies Dual2s with a non-zero own Hessian}; five kinds of refused update \
          (reversed pair, unquoted pair, foreign currency, inconsistent settlement, one valid + one invalid quote); \
          set_ad_order(0|1|2). Markets: every tree on 2-3 currencies in every orientation, every labelled tree on 4 currencies (one \
          orientation each; all orientations in the thorough tier), with and without settlement, different bases. On every transition: a refused update returns Err and leaves the \
